@@ -492,6 +492,7 @@ func (b *Builder) encrypt(data []byte) ([]byte, error) {
 	needSz := len(data) + len(iv)
 	dst := b.alloc.Allocate(needSz)
 
+	y.VerifIV("block", b.DataKey().KeyId, iv)
 	if err = y.XORBlock(dst[:len(data)], data, b.DataKey().Data, iv); err != nil {
 		return data, y.Wrapf(err, "Error while encrypting in Builder.encrypt")
 	}
